@@ -307,7 +307,96 @@ func Check16(c Case16, r *core.Rec) {
 		check16SpecialSchemeEffect(c, r)
 	case "canon-combo":
 		check16CanonCombo(c, r)
+	case "documented-effect":
+		check16DocumentedEffect(c, r)
 	}
+}
+
+// check16DocumentedEffect: the two parser options whose effect the statement does not spell out but
+// their doc comments do (the property's title is "every option has its documented effect").
+//   - WithPercentEncodeSinglePercentSign "percent encodes a '%' which is not followed by two
+//     hexadecimal digits": in the path / opaque path of the result every '%' starts a valid escape,
+//     and nothing else differs from the default parser's result once those are re-escaped there too.
+//   - WithSkipWindowsDriveLetterNormalization "skips conversion of 'C|' to 'C:'": a file URL whose
+//     first path segment is written X| keeps it, and equals the default result with that ':' as '|'.
+func check16DocumentedEffect(c Case16, r *core.Rec) {
+	if len(c.Opts) != 1 {
+		r.Vacuous()
+		return
+	}
+	d0 := parse16(DefaultParser, c)
+	got := parse16(url.NewParser(c.Opts[0].option()), c)
+	if got.err == nil && got.u == nil {
+		r.Failf("%s: returned (nil, nil)", where16(c))
+		return
+	}
+	if got.ok() != d0.ok() {
+		r.Failf("%s: ok=%v (%v) but the default parser ok=%v", where16(c), got.ok(), got.err, d0.ok())
+		return
+	}
+	if !d0.ok() {
+		r.Vacuous()
+		return
+	}
+	switch c.Opts[0].Name {
+	case "single-percent":
+		pn := got.u.Pathname()
+		for i := 0; i < len(pn); i++ {
+			if pn[i] == '%' && !(i+2 < len(pn) && isHexByte(pn[i+1]) && isHexByte(pn[i+2])) {
+				r.Failf("%s: the path %q still has a '%%' that is not followed by two hex digits", where16(c), pn)
+				return
+			}
+		}
+		if hasLonePercent(d0.u.Pathname()) {
+			r.NT()
+		}
+		// everything but the path is as the default parser has it
+		g, w := ObsOf(got.u), ObsOf(d0.u)
+		for _, i := range []int{1, 2, 3, 4, 5, 6, 8, 9} {
+			if g[i] != w[i] {
+				r.Failf("%s: %s is %q, the default parser gives %q", where16(c), obsName(i), g[i], w[i])
+				return
+			}
+		}
+	case "skip-drive":
+		want := ObsOf(d0.u)
+		pn := d0.u.Pathname()
+		in := preprocess(string(c.Input))
+		// only judged for the plain shape file: + slashes + X| + (end | / | ? | #) without base
+		// (dot segments after the drive letter are not judged: whether ".." may pop a drive letter that was
+		// left un-normalised is not documented for this option)
+		if low := strings.ToLower(in); strings.Contains(low, "/.") || strings.Contains(low, "%2e") || strings.Contains(low, "\\.") {
+			r.Vacuous()
+			return
+		}
+		if c.HasBase || d0.u.Protocol() != "file:" || len(pn) < 3 || pn[0] != '/' || pn[2] != ':' || !isDriveInput(in, pn[1]) {
+			r.Vacuous()
+			return
+		}
+		r.NT()
+		kept := "/" + string(pn[1]) + "|" + pn[3:]
+		want[7] = kept
+		want[0] = strings.Replace(want[0], pn, kept, 1)
+		if d := DiffObs(ObsOf(got.u), want); d != "" {
+			r.Failf("%s: expected the default result with the drive letter left as written: %s", where16(c), d)
+		}
+	}
+}
+
+// isDriveInput: the input is file: + slashes + <letter>| + (end or / ? #), the letter being l.
+func isDriveInput(in string, l byte) bool {
+	low := strings.ToLower(in)
+	if !strings.HasPrefix(low, "file:") {
+		return false
+	}
+	rest := strings.TrimLeft(in[5:], "/\\")
+	if len(in[5:])-len(rest) != 3 && len(in[5:])-len(rest) != 1 {
+		return false // file:///X| or file:/X| only (two slashes would make X| a host candidate)
+	}
+	if len(rest) < 2 || rest[0] != l || rest[1] != '|' {
+		return false
+	}
+	return len(rest) == 2 || strings.ContainsRune("/?#", rune(rest[2]))
 }
 
 // check16CanonCombo: any subset of remove-user-info / remove-port / remove-fragment / sort-query /
@@ -934,7 +1023,7 @@ var c16SortQueries = []string{"?b=2&a=1", "?a=2&a=1&b=0", "?c&b&a", "?a=1&A=2&a=
 
 func Gen16(t *rapid.T) Case16 {
 	var c Case16
-	clauses := []string{"neutral", "neutral", "neutral", "remove", "remove", "sort", "default-scheme", "no-options", "collapse-effect", "encode-set-effect", "skip-equals", "special-scheme-effect", "canon-combo", "canon-combo"}
+	clauses := []string{"neutral", "neutral", "neutral", "remove", "remove", "sort", "default-scheme", "no-options", "collapse-effect", "encode-set-effect", "skip-equals", "special-scheme-effect", "canon-combo", "canon-combo", "documented-effect"}
 	c.Clause = gen.Pick(t, "clause", clauses)
 	switch c.Clause {
 	case "no-options":
@@ -954,6 +1043,22 @@ func Gen16(t *rapid.T) Case16 {
 		}
 		if len(c.Opts) == 0 {
 			c.Opts = append(c.Opts, Opt16{Name: "remove-fragment"})
+		}
+	case "documented-effect":
+		if rapid.IntRange(0, 1).Draw(t, "which") == 0 {
+			c.Opts = []Opt16{{Name: "single-percent"}}
+			switch rapid.IntRange(0, 2).Draw(t, "pctInput") {
+			case 0:
+				c.Input = B(gen.Pick(t, "pct", []string{"http://h/%", "http://h/a%2", "http://h/%zz/b", "foo:a%b", "mailto:50%off@x", "http://h/%%41", "http://h/%4%41", "file:///%", "foo://h/p%", "http://h/x%25%", "data:%%%", "http://h/%e2%82%"}))
+			case 1:
+				c.Input = B("http://h/" + gen.Soup(t, "pctsoup", 5))
+			default:
+				genInput16(t, &c)
+			}
+		} else {
+			c.Opts = []Opt16{{Name: "skip-drive"}}
+			l := gen.Pick(t, "letter", []string{"C", "c", "z", "A"})
+			c.Input = B(gen.Pick(t, "fileprefix", []string{"file:///", "file:/", "FILE:///", "file:\\\\\\"}) + l + "|" + gen.Pick(t, "driverest", []string{"", "/", "/x/y", "/x/", "?q", "#f", "/a b", "/x?q#f", "/C|/y"}))
 		}
 	case "canon-combo":
 		switch rapid.IntRange(0, 3).Draw(t, "comboInput") {
@@ -1104,7 +1209,7 @@ func sortedOptNames(opts []Opt16) []string {
 
 var P16 = core.Register(core.Prop[Case16]{
 	ID: "C16",
-	Rule: "each case draws a clause and its data: no-options (canonicalizer.New(), url.NewParser(), WhatWg vs the package functions, incl. the empty base string); remove (any subset of remove-user-info / remove-port / remove-fragment vs the reference model's parse followed by the standard's setter steps, cross-checked with the real setters); sort (SortKeys / SortParameter / NoSort vs the sorted decoded list of the default parser's result); default-scheme (unaffected / parsed as scheme://input exactly when the reference model fails in the no-scheme state / still failing); neutral (1..4 of 14 parser options with generated encode sets and added schemes: if no option's trigger is present in the input text — and in the values of up to three setter calls applied afterwards — the result equals the default parser's); collapse-effect (no empty non-final segment in special paths, non-special untouched); encode-set-effect (a replaced set governs exactly its component and scheme class); canon-combo (any subset of the five canonicalizer options together vs the default parser's result with the default-scheme rule, the real setters and the sorted decoded list); skip-equals ('=' dropped exactly for empty values); special-scheme-effect (an added scheme parses like http with its own default port); " +
+	Rule: "each case draws a clause and its data: no-options (canonicalizer.New(), url.NewParser(), WhatWg vs the package functions, incl. the empty base string); remove (any subset of remove-user-info / remove-port / remove-fragment vs the reference model's parse followed by the standard's setter steps, cross-checked with the real setters); sort (SortKeys / SortParameter / NoSort vs the sorted decoded list of the default parser's result); default-scheme (unaffected / parsed as scheme://input exactly when the reference model fails in the no-scheme state / still failing); neutral (1..4 of 14 parser options with generated encode sets and added schemes: if no option's trigger is present in the input text — and in the values of up to three setter calls applied afterwards — the result equals the default parser's); collapse-effect (no empty non-final segment in special paths, non-special untouched); encode-set-effect (a replaced set governs exactly its component and scheme class); documented-effect (single-percent-sign leaves no lone '%' in the path and changes nothing else; skip-drive-letter-normalization keeps a first segment written X| and changes nothing else); canon-combo (any subset of the five canonicalizer options together vs the default parser's result with the default-scheme rule, the real setters and the sorted decoded list); skip-equals ('=' dropped exactly for empty values); special-scheme-effect (an added scheme parses like http with its own default port); " +
 		"non-trivial = the clause's option actually applies to the input (its trigger / target is present), or at least 2 options combined with all triggers absent on a parsing input; distinct by hash of the case",
 	Gen:   Gen16,
 	Check: Check16,
